@@ -19,7 +19,7 @@ static void sb_ch(sb_t *s, char c) { sb_put(s, &c, 1); }
 #define NVAR 8
 static struct { char k[16]; char v[128]; int set; } vars[NVAR];
 static int dont_care;                      /* the input uses a construct whose value the statement leaves open */
-static int put_seen, store_uncertain;      /* a %put in an expansion that was cut at the limit may or may not have happened */
+static int put_seen, store_uncertain, tmpdir_odd, len_unknown;      /* a %put in an expansion that was cut at the limit may or may not have happened */
 static const char *ref_getvar(const char *k) { for (int i = 0; i < NVAR; i++) if (vars[i].set && !strcmp(vars[i].k, k)) return vars[i].v; return NULL; }
 static void ref_putvar(const char *k, const char *v)
 {
@@ -38,6 +38,7 @@ static int words(const char *s, char w[4][128])
         if (*s == '"' || *s == '\'') { dont_care = 1; return 0; }          /* quoted words inside arguments: not modelled */
         if (n >= 4) { dont_care = 1; return n; }
         while (*s && !isspace((unsigned char)*s) && k < 127) w[n][k++] = *s++;
+        if (*s && !isspace((unsigned char)*s)) { dont_care = 1; len_unknown = 1; while (*s && !isspace((unsigned char)*s)) s++; }    /* words beyond the model's 127 characters: not modelled */
         w[n++][k] = 0;
     }
     return n;
@@ -59,6 +60,7 @@ static void ref_builtin(const char *name, const char *rawargs, sb_t *o, int dept
     else if (!strcasecmp(name, "appname")) sb_put(o, "simrun-1.0", 10);
     else if (!strcasecmp(name, "random")) { n = words(a.b, w); if (n >= 1) { for (int i = 1; i < n; i++) if (strcmp(w[i], w[0])) dont_care = 1; sb_put(o, w[0], strlen(w[0])); } }
     else if (!strcasecmp(name, "exec")) {
+        if (tmpdir_odd) dont_care = 1;           /* what a command yields when its temporary file cannot be created is not specified */
         /* simulated command interpreter: "echo TEXT" prints TEXT; output is whitespace-condensed */
         const char *c = a.b;
         while (*c == ' ') c++;
@@ -66,7 +68,12 @@ static void ref_builtin(const char *name, const char *rawargs, sb_t *o, int dept
             const char *t = c + 5; int sp = 0, any = 0;
             if (strchr(t, '>') || strchr(t, '<')) dont_care = 1;
             for (; *t; t++) { if (isspace((unsigned char)*t)) { sp = any; } else { if (sp) sb_ch(o, ' '); sp = 0; any = 1; sb_ch(o, *t); } }
-        } else dont_care = 1;
+        } else if (!strncmp(c, "big ", 4)) {
+            /* the simulated command prints N letters (no blanks, so condensing leaves them alone) */
+            long n = atol(c + 4);
+            if (n > 100000) n = 100000;
+            for (long i = 0; i < n; i++) sb_ch(o, 'x');
+        } else { dont_care = 1; len_unknown = 1; }
     } else dont_care = 1;
     free(a.b);
 }
@@ -168,6 +175,8 @@ static void one_pass(const plan_t *p, int pass)
     int nres = 0;
     memset(vars, 0, sizeof(vars));
     store_uncertain = 0;
+    tmpdir_odd = plan_get(p, "tmpdir", 0) >= 2;
+    conf_env_setup(p);
     sa_set_fill(pass ? FILL_FF : (int)plan_get(p, "alloc.fill", FILL_A5));
     spifconf_init_subsystem();
     for (int i = 0; i < p->nops; i++) {
@@ -187,11 +196,11 @@ static void one_pass(const plan_t *p, int pass)
             sb_t want = { 0 };
             memcpy(b, o->s, n); b[n] = 0;
             for (size_t q = 0; q < n; q++) if (!b[q]) b[q] = '.';
-            dont_care = 0; put_seen = 0;
+            dont_care = 0; put_seen = 0; len_unknown = 0;
             sb_put(&want, "", 0);
             { char *in = strdup(b); ref_expand(in, &want, 0); free(in); }
             if (store_uncertain && strcasestr(b, "%get")) dont_care = 1;
-            if (want.n >= CONFIG_BUFF - 1 && put_seen) { store_uncertain = 1; probe_hit("put_in_an_expansion_cut_at_the_limit"); }
+            if ((want.n >= CONFIG_BUFF - 1 || len_unknown) && put_seen) { store_uncertain = 1; probe_hit("put_in_an_expansion_cut_at_the_limit"); }
             paint_stack(pass ? 0xFF : 0x00, 2048);
             ret = (char *)spifconf_shell_expand((spif_charptr_t)b);
             if (ret) {
@@ -233,7 +242,6 @@ static void one_pass(const plan_t *p, int pass)
 static void exec_c10(const plan_t *p)
 {
     conf_reset_mirror();
-    setenv("HOME", "/home/u", 1); setenv("V1", "val-one", 1); setenv("EMPTY", "", 1); setenv("LONG_name_9", "L", 1);
     for (int i = 0; i < MAXRES; i++) { free(pass_a[i]); pass_a[i] = NULL; }
     conf_fill_dir(p);
     one_pass(p, 0);
@@ -269,7 +277,11 @@ static void gen_piece(rng_t *r, int depth, int inside_args)
     else if (c < 86) { static const char *rw[] = { "abc", "x", "a=b" }; const char *w = rw[rng_below(r, 3)]; ga("%%random(%s %s %s)", w, w, w); }
     else if (c < 90 && depth < 3) { ga("%%get(k%u ", rng_below(r, 5)); gen_piece(r, depth + 1, 1); ga(")"); }
     else if (c < 92 && depth < 3) { ga("%%put(k%u ", rng_below(r, 4)); if (rng_chance(r, 1, 2)) ga("%%get(k%u z)", rng_below(r, 5)); else ga("w%u", rng_below(r, 9)); ga(")"); }
-    else if (c < 94) ga("%%exec(echo  out  put%u )", rng_below(r, 9));
+    else if (c < 94) {
+        if (rng_chance(r, 1, 6)) { static const int bl[] = { 1, 100, 4096, 20470, 20478, 20479, 20480, 20481, 30000 }; ga("%%exec(big %d)", bl[rng_below(r, 9)]); }    /* a command with a lot of output */
+        else if (rng_chance(r, 1, 8)) { int n = rng_range(r, 120, 140); ga(rng_chance(r, 1, 2) ? "${" : "$"); for (int i = 0; i < n; i++) ga("N"); ga("} x"); }       /* a very long variable name */
+        else ga("%%exec(echo  out  put%u )", rng_below(r, 9));
+    }
     else if (c < 95) ga("`echo bq%u`", rng_below(r, 9));
     else if (c < 96) ga("%%nosuch(x)");
     else if (c < 97) ga("${V1");
@@ -287,6 +299,8 @@ static void gen_c10(plan_t *p, rng_t *r)
     plan_knob(p, "alloc.reuse", rng_range(r, 0, 2));
     if (rng_chance(r, 1, 3)) { o = plan_op(p, 0, "env", 1, (long)rng_chance(r, 1, 2)); op_str(o, "HOME", 4); op_str2(o, "", 0); }
     if (rng_chance(r, 1, 3)) plan_op(p, 0, "builtin", 1, (long)rng_range(r, 1, 5));
+    if (rng_chance(r, 1, 10)) { static const int el[] = { 120, 127, 128, 300, 4096, 20470, 20478, 20479, 20480, 20481, 30000, 65000 }; plan_knob(p, rng_chance(r, 1, 2) ? "env.v1len" : "env.homelen", el[rng_below(r, 12)]); }
+    if (rng_chance(r, 1, 12)) { static const int tl[] = { 200, 230, 238, 239, 240, 241, 242, 243, 244, 245, 250, 256, 300 }; plan_knob(p, "tmpdir", rng_range(r, 1, 3)); plan_knob(p, "tmpdir.len", tl[rng_below(r, 13)]); }
     if (rng_chance(r, 1, 10)) {
         /* a directory whose listing is as long as the line buffer, give or take a few bytes */
         static const int nls[] = { 255, 255, 254, 200, 128, 100 };
@@ -303,9 +317,10 @@ static void gen_c10(plan_t *p, rng_t *r)
             if (rng_chance(r, 1, 3)) ga(" tail");
         } else if (rng_chance(r, 1, 12)) {
             /* push the result to and past the line-buffer limit */
-            size_t pad = (size_t)rng_range(r, 20300, 20470);
+            size_t pad = (size_t)(rng_chance(r, 1, 2) ? rng_range(r, 20440, 20479) : rng_range(r, 20300, 20470));
             memset(gv, 'p', pad); gvn = pad; gv[gvn] = 0;
-            for (int q = 0; q < 6; q++) ga(rng_chance(r, 1, 2) ? "$V1" : "~");
+            if (rng_chance(r, 1, 2)) for (int q = 0; q < 6; q++) ga(rng_chance(r, 1, 2) ? "$V1" : "~");
+            else for (int q = 0; q < 8; q++) gen_piece(r, 0, 0);              /* every construct gets its turn at the limit */
         } else for (int q = 0; q < pieces; q++) gen_piece(r, 0, 0);
         if (rng_chance(r, 1, 15)) ga("\\");
         o = plan_op(p, 0, "expand", 0);
